@@ -146,7 +146,37 @@ pub fn run(v: &Value, rep: &mut Report) -> Result<(), String> {
             }
         }
     }
-    eprintln!("search: {tried} histories up to depth {depth} in {:?}, nothing found for {prop}", t0.elapsed());
+    // second phase (thorough tier): the lexicographic enumeration above spends its whole budget on histories that begin
+    // with the first few alphabet entries; sample longer histories pseudo-randomly (deterministic for the seed)
+    let sample_ms = v.get("sample_ms").and_then(|x| x.as_u64()).unwrap_or(0);
+    let sample_depth = v.get("sample_depth").and_then(|x| x.as_u64()).unwrap_or(6) as usize;
+    let mut sampled: u64 = 0;
+    if sample_ms > 0 {
+        let mut x: u64 = v.get("seed").and_then(|x| x.as_u64()).unwrap_or(0).wrapping_mul(0x9E3779B97F4A7C15) | 1;
+        let mut rnd = move || { x ^= x << 13; x ^= x >> 7; x ^= x << 17; x };
+        let t1 = Instant::now();
+        while t1.elapsed() < Duration::from_millis(sample_ms) {
+            let d = 4 + (rnd() as usize) % (sample_depth - 3);
+            let idx: Vec<usize> = (0..d).map(|k| if k == 0 { (rnd() as usize) % 13 } else { (rnd() as usize) % alpha.len() }).collect();   // first op: an add
+            if let Some(ops) = materialize(&idx, &alpha) {
+                let hist = json!({"kind":"level_history","price":100,"ops":ops,"legs": prop == "C10"});
+                *current.lock().unwrap() = Some(hist.clone());
+                let mut r = Report::default();
+                if crate::level_history::run(&hist, &mut r).is_ok() {
+                    sampled += 1;
+                    let hits: Vec<&String> = r.lines.iter().filter(|l| l.contains(&format!("property={prop} ")) && !exclude.iter().any(|e| l.contains(&format!("clause={e} ")))).collect();
+                    let co = require.iter().all(|q| r.lines.iter().any(|l| l.contains(&format!("clause={q} "))));
+                    if !hits.is_empty() && co {
+                        for h in hits.iter().take(3) { rep.lines.push((*h).clone()); }
+                        rep.lines.push(format!("REPLAY-FOUND {}", hist));
+                        return Ok(());
+                    }
+                }
+                *current.lock().unwrap() = None;
+            }
+        }
+    }
+    eprintln!("search: {tried} histories enumerated up to depth {depth} and {sampled} sampled at depth 4..{sample_depth} in {:?}, nothing found for {prop}", t0.elapsed());
     Ok(())
 }
 
